@@ -61,36 +61,44 @@ Variable cb : bool.
 
 Notation wr_write := (wr_write H h).
 
-Definition good (L : N) (b : bytes) : Prop := N.of_nat (length b) = L /\ H b = h.
+(* a complete correct copy of an admissible size *)
+Definition good (b : bytes) : Prop := (0 < N.of_nat (length b) <= MAX_BLOB_SIZE)%N /\ H b = h.
 
 Definition w_ok (len : option N) (w : writer) : Prop :=
-  (forall b, w_fut w = FOk b -> exists L, len = Some L /\ 0 < L /\ good L b)%N
+  (forall b, w_fut w = FOk b -> good b)
   /\ (w_open w = true -> w_fut w = FPending ->
       w_seen w = w_buf w /\ forall L, len = Some L -> L <> 0%N -> (N.of_nat (length (w_seen w)) < L)%N)
   /\ (w_open w = false -> w_fut w <> FPending)
-  /\ (len = None \/ len = Some 0%N -> w_seen w = []).
+  /\ (len = None \/ len = Some 0%N -> w_fut w = FPending -> w_seen w = [])
+  /\ (forall L, len = Some L -> (L <= MAX_BLOB_SIZE)%N).
 
 Record wtrans (len : option N) (f : writer -> writer * bool) : Prop := {
   wt_key : forall w, w_key (fst (f w)) = w_key w;
   wt_fire : forall w, snd (f w) = true -> w_fut w = FPending /\ fut_done (w_fut (fst (f w))) = true;
   wt_nofire : forall w, snd (f w) = false -> w_fut (fst (f w)) = w_fut w;
   wt_ok : forall w, w_ok len w -> w_ok len (fst (f w));
+  wt_newok : forall w b, w_ok len w -> w_fut w = FPending -> w_fut (fst (f w)) = FOk b ->
+             exists L, len = Some L /\ N.of_nat (length b) = L;
   wt_open : forall w, w_open (fst (f w)) = true -> w_open w = true }.
+
+Ltac split5 := split; [|split; [|split; [|split]]].
 
 Lemma wtrans_close len : wtrans len close_handle_w.
 Proof.
   split; intros w; unfold close_handle_w; destruct (fut_done (w_fut w)) eqn:D; simpl; auto; try discriminate.
   - intros _. apply fut_done_false in D. auto.
-  - unfold w_ok; intros (A & B & C & E). repeat split; simpl; auto; try discriminate.
+  - unfold w_ok; intros (A & B & C & E & F). split5; simpl; auto; try discriminate.
     intros _. apply fut_done_true; auto.
-  - unfold w_ok; intros (A & B & C & E). repeat split; simpl; auto; try discriminate.
+  - unfold w_ok; intros (A & B & C & E & F). split5; simpl; auto; try discriminate.
+  - intros b _ P E. congruence.
 Qed.
 
 Lemma wtrans_cancel len : wtrans len cancel_w.
 Proof.
   split; intros w; unfold cancel_w; destruct (fut_done (w_fut w)) eqn:D; simpl; auto; try discriminate.
   - intros _. apply fut_done_false in D. auto.
-  - unfold w_ok; intros (A & B & C & E). repeat split; simpl; auto; try discriminate.
+  - unfold w_ok; intros (A & B & C & E & F). split5; simpl; auto; try discriminate.
+  - intros b _ P E. congruence.
 Qed.
 
 Ltac break_ifs :=
@@ -115,13 +123,18 @@ Proof.
   - break_ifs; auto.
   - break_ifs; try discriminate; intros _; norm_hyps; auto.
   - break_ifs; try discriminate; auto.
-  - unfold w_ok; intros (A & B & C & F); break_ifs; norm_hyps; simpl.
-    all: repeat match goal with |- _ /\ _ => split end; auto; try discriminate; try congruence.
+  - unfold w_ok; intros (A & B & C & F & G); break_ifs; norm_hyps; simpl.
+    all: split5; auto; try discriminate; try congruence.
     all: try (intros [X|X]; congruence).
-    + intros b Eb. inversion Eb; subst b. exists L. split; auto. split; [lia|].
-      destruct (B Heqb0 Heqb4) as (S1 & _). rewrite <- S1. split; auto.
+    + intros b Eb. inversion Eb; subst b.
+      destruct (B Heqb0 Heqb4) as (S1 & _). rewrite <- S1. pose proof (G L eq_refl). split; auto. lia.
     + intros _ P. destruct (B Heqb0 P) as (S1 & _). split; [congruence|].
       intros L' EL _. inversion EL; subst L'. lia.
+  - intros b Hok P. rewrite P. simpl. destruct Hok as (_ & B & _).
+    break_ifs; norm_hyps; simpl; intros E; try discriminate; try congruence.
+    inversion E; subst b. exists L. split; auto.
+    destruct (B Heqb1 P) as (S1 & _). rewrite <- S1. auto.
+  - intros; congruence.
   - break_ifs; norm_hyps; auto; intros; try discriminate; auto.
 Qed.
 
@@ -129,7 +142,7 @@ Qed.
 (* safety invariant                                                                           *)
 (* ------------------------------------------------------------------------------------------ *)
 Definition goodS (s : state) (b : bytes) : Prop :=
-  exists L, s_len s = Some L /\ (0 < L)%N /\ good L b.
+  exists L, s_len s = Some L /\ N.of_nat (length b) = L /\ good b.
 
 Definition Inv (s : state) : Prop :=
   (forall L, s_len s = Some L -> (L <= MAX_BLOB_SIZE)%N)
@@ -182,13 +195,12 @@ Proof. intros Hg Hs. induction l; simpl; auto. Qed.
 Lemma Inv_set_map m s : Inv s -> Inv (set_map m s).
 Proof. unfold Inv, goodS; simpl; auto. Qed.
 
-Lemma w_ok_set_len w L : w_ok None w -> w_ok (Some L) w.
+Lemma w_ok_set_len w L : (L <= MAX_BLOB_SIZE)%N -> w_ok None w -> w_ok (Some L) w.
 Proof.
-  intros (A & B & C & F). assert (Sn : w_seen w = []) by auto.
-  repeat split; auto.
-  - intros b Eb. destruct (A b Eb) as (L0 & X & _). discriminate.
-  - apply B; auto.
-  - intros L0 E Hne. inversion E; subst. rewrite Sn. simpl. lia.
+  intros HL (A & B & C & F & G). split5; auto.
+  - intros O P. destruct (B O P) as (S1 & _). split; auto.
+    intros L0 E Hne. assert (L0 = L) by congruence. subst L0. rewrite (F (or_introl eq_refl) P). simpl. lia.
+  - intros L0 E. assert (L0 = L) by congruence. subst L0. auto.
 Qed.
 
 Lemma Inv_set_length n s : Inv s -> Inv (set_length n s).
@@ -198,9 +210,10 @@ Proof.
   destruct ((0 <=? n)%Z && (n <=? Z.of_N MAX_BLOB_SIZE)%Z) eqn:Eb.
   2:{ unfold Inv; rewrite El; repeat split; auto. }
   apply andb_true_iff in Eb. destruct Eb as [E1 E2]. apply Z.leb_le in E1, E2.
+  assert (HL : (Z.to_N n <= MAX_BLOB_SIZE)%N) by (unfold MAX_BLOB_SIZE in *; lia).
   unfold Inv, goodS in *; simpl. repeat split; auto.
-  - intros L E. inversion E; subst. unfold MAX_BLOB_SIZE in *. lia.
-  - eapply Forall_impl; [|exact I2]. intros w. apply w_ok_set_len.
+  - intros L E. inversion E; subst. auto.
+  - eapply Forall_impl; [|exact I2]. intros w. apply w_ok_set_len; auto.
   - intros b Hb. destruct (I3 b Hb) as (L & X & _). congruence.
   - intros b Hb. destruct (I4 b Hb) as (L & X & _). congruence.
   - intros b Hb. destruct (I5 b Hb) as (L & X & _). congruence.
@@ -213,7 +226,7 @@ Proof.
   destruct I as (I1 & I2 & I3 & I4 & I5 & I6 & I7). unfold Inv, goodS in *; simpl.
   repeat split; auto.
   apply Forall_app; split; auto. constructor; auto.
-  repeat split; simpl; auto; try discriminate. intros; lia.
+  split5; simpl; auto; try discriminate. intros _ _. split; auto. intros; lia.
 Qed.
 
 Lemma Inv_close_blob s : Inv s -> Inv (close_blob s).
@@ -244,12 +257,79 @@ Proof.
     destruct Hq as [Hq|[Hq|Hq]]; apply in_app_or in Hq; destruct Hq as [Hq|[Hq|[]]]; auto; discriminate.
 Qed.
 
+(* a queued writer_finished_callback that carries a result carries one of the CURRENT length *)
+Definition Qok (s : state) : Prop :=
+  forall i w b, In (QWfc i) (s_q s) -> nth_error (s_ws s) i = Some w -> w_fut w = FOk b -> goodS s b.
+
+Lemma Qok_init : Qok init.
+Proof. intros i w b []. Qed.
+
+Lemma Qok_grow s s' : s_ws s' = s_ws s -> s_len s' = s_len s ->
+  (forall i, In (QWfc i) (s_q s') -> In (QWfc i) (s_q s)) -> Qok s -> Qok s'.
+Proof.
+  intros E1 E2 Q K i w b Hq Hn Ef. rewrite E1 in Hn. destruct (K i w b (Q i Hq) Hn Ef) as (L & X).
+  exists L. rewrite E2. auto.
+Qed.
+
+Lemma Qok_app_w g j s : wtrans (s_len s) g -> Forall (w_ok (s_len s)) (s_ws s) -> Qok s -> Qok (app_w g j s).
+Proof.
+  intros Wt F K. unfold app_w. destruct (nth_error (s_ws s) j) eqn:Hj; auto.
+  destruct (g w) as [w' fl] eqn:Eg. assert (Ew : w' = fst (g w)) by (rewrite Eg; auto).
+  pose proof (Forall_nth _ _ _ _ F Hj) as Wok.
+  intros i x b Hq Hn Ef. unfold goodS. simpl in *.
+  apply nth_error_upd_cases in Hn. destruct Hn as [(-> & -> & _)|(Hne & Hn)].
+  - destruct (fut_done (w_fut w)) eqn:D.
+    + (* already done: same future, and its callback was queued before *)
+      pose proof (wt_fire _ _ Wt w) as Fi. rewrite Eg in Fi. simpl in Fi.
+      destruct fl. { destruct (Fi eq_refl) as (P & _). rewrite P in D. discriminate. }
+      simpl in Hq. rewrite app_nil_r in Hq.
+      pose proof (wt_nofire _ _ Wt w) as Nf. rewrite Eg in Nf. simpl in Nf. rewrite Nf in Ef by auto.
+      apply (K j w b); auto.
+    + apply fut_done_false in D. rewrite Ew in Ef.
+      destruct (wt_newok _ _ Wt w b Wok D Ef) as (L & E1 & E2). exists L. split; auto. split; auto.
+      destruct (wt_ok _ _ Wt w Wok) as (A & _). apply A; auto.
+  - apply in_app_or in Hq. destruct Hq as [Hq|Hq]; [apply (K i x b); auto|].
+    destruct fl; simpl in Hq; [|tauto]. destruct Hq as [Hq|[Hq|[Hq|[]]]]; try discriminate.
+    inversion Hq; subst. contradiction.
+Qed.
+
+Lemma Forall_ok_app_w g j s : wtrans (s_len s) g -> Forall (w_ok (s_len s)) (s_ws s) ->
+  Forall (w_ok (s_len (app_w g j s))) (s_ws (app_w g j s)).
+Proof.
+  intros Wt F. rewrite app_w_len. unfold app_w. destruct (nth_error (s_ws s) j) eqn:Hj; auto.
+  destruct (g w) as [w' fl] eqn:Eg. simpl. apply Forall_upd; auto.
+  replace w' with (fst (g w)) by (rewrite Eg; auto). apply (wt_ok _ _ Wt). eapply Forall_nth; eauto.
+Qed.
+
+Lemma Qok_fold {A} (g : A -> state -> state) l s :
+  (forall x st, Forall (w_ok (s_len st)) (s_ws st) -> Qok st ->
+                Forall (w_ok (s_len (g x st))) (s_ws (g x st)) /\ Qok (g x st)) ->
+  Forall (w_ok (s_len s)) (s_ws s) -> Qok s ->
+  Forall (w_ok (s_len (fold_right g s l))) (s_ws (fold_right g s l)) /\ Qok (fold_right g s l).
+Proof. intros Hg F K. induction l; simpl; auto. destruct IHl. apply Hg; auto. Qed.
+
+Lemma Qok_close_others i s : Forall (w_ok (s_len s)) (s_ws s) -> Qok s -> Qok (close_others i s).
+Proof.
+  intros I2 K. unfold close_others.
+  eapply Qok_grow; [reflexivity|reflexivity|auto|].
+  apply Qok_fold; auto. intros x st F Kt. destruct (Nat.eqb (snd x) i); auto.
+  split; [apply Forall_ok_app_w|apply Qok_app_w]; auto; apply wtrans_close.
+Qed.
+
+Lemma Qok_close_blob s : Inv s -> Qok s -> Qok (close_blob s).
+Proof.
+  intros (_ & I2 & _) K. unfold close_blob.
+  eapply Qok_grow; [reflexivity|reflexivity|auto|].
+  apply Qok_fold; auto. intros x st F Kt.
+  split; [apply Forall_ok_app_w|apply Qok_app_w]; auto; apply wtrans_cancel.
+Qed.
+
 Lemma in_done_cbs_task b : ~ In (QTask b) (done_cbs cb).
 Proof. unfold done_cbs. destruct cb; simpl; intuition discriminate. Qed.
 
-Lemma Inv_run_item it r s : Inv s -> s_q s = it :: r -> Inv (run_item kd cb it (set_q r s)).
+Lemma Inv_run_item it r s : Inv s -> Qok s -> s_q s = it :: r -> Inv (run_item kd cb it (set_q r s)).
 Proof.
-  intros I Eq.
+  intros I K Eq.
   assert (I0 : Inv (set_q r s)).
   { destruct I as (I1 & I2 & I3 & I4 & I5 & I6 & I7). unfold Inv, goodS in *; simpl. rewrite Eq in *.
     repeat split; auto.
@@ -260,8 +340,8 @@ Proof.
   - apply Inv_set_map; auto.
   - destruct (nth_error (s_ws s) i) eqn:Hn; auto. destruct (w_fut w) eqn:Ef; auto.
     apply Inv_save_verified. apply Inv_close_others; auto.
-    destruct I as (I1 & I2 & _). destruct (Forall_nth _ _ _ _ I2 Hn) as (A & _).
-    destruct (A b Ef) as (L & E1 & E2 & E3). exists L. rewrite close_others_len. simpl. auto.
+    destruct (K i w b) as (L & E1 & E2 & E3); auto. rewrite Eq; left; auto.
+    exists L. rewrite close_others_len. simpl. auto.
   - assert (G : goodS s b). { destruct I as (_ & _ & I3 & _). apply I3. rewrite Eq; left; auto. }
     destruct I0 as (I1 & I2 & I3 & I4 & I5 & I6 & I7). destruct kd.
     + unfold Inv, goodS in *; simpl in *. repeat split; auto. intros b' E. inversion E; subst; auto.
@@ -287,13 +367,54 @@ Proof.
   - destruct I0 as (I1 & I2 & I3 & I4 & I5 & I6 & I7'). unfold Inv, goodS in *; simpl in *. repeat split; auto.
 Qed.
 
-Lemma Inv_step1 s : Inv s -> Inv (step1 kd cb s).
+Lemma Qok_save_verified b s : Qok s -> Qok (save_verified kd b s).
 Proof.
-  intros I. unfold step1. destruct (s_q s) eqn:Eq; auto. apply Inv_run_item; auto.
+  intros K. unfold save_verified. destruct (s_verified s); auto. destruct (writeable kd s); auto.
+  eapply Qok_grow; [| | |exact K]; auto. simpl. intros i Hq. apply in_app_or in Hq.
+  destruct Hq as [Hq|Hq]; auto. simpl in Hq; intuition discriminate.
 Qed.
 
-Lemma Inv_iter n s : Inv s -> Inv (iter kd cb n s).
-Proof. revert s; induction n; simpl; auto. intros; apply IHn. apply Inv_step1; auto. Qed.
+Lemma Qok_enq l s : (forall i, ~ In (QWfc i) l) -> Qok s -> Qok (enq l s).
+Proof.
+  intros Hl K. eapply Qok_grow; [| | |exact K]; auto. simpl. intros i Hq. apply in_app_or in Hq.
+  destruct Hq as [Hq|Hq]; auto. exfalso; eapply Hl; eauto.
+Qed.
+
+Lemma done_cbs_no_wfc i : ~ In (QWfc i) (done_cbs cb).
+Proof. unfold done_cbs. destruct cb; simpl; intuition discriminate. Qed.
+
+Lemma Qok_run_item it r s : Inv s -> Qok s -> s_q s = it :: r -> Qok (run_item kd cb it (set_q r s)).
+Proof.
+  intros I K Eq.
+  assert (K0 : Qok (set_q r s)).
+  { eapply Qok_grow; [| | |exact K]; auto. simpl. intros i Hq. rewrite Eq; right; auto. }
+  assert (F0 : Forall (w_ok (s_len (set_q r s))) (s_ws (set_q r s))) by (destruct I as (_ & I2 & _); exact I2).
+  destruct it; simpl.
+  - apply Qok_app_w; auto. apply wtrans_close.
+  - eapply Qok_grow; [| | |exact K0]; auto.
+  - change (s_ws (set_q r s)) with (s_ws s). destruct (nth_error (s_ws s) i); auto. destruct (w_fut w); auto.
+    apply Qok_save_verified. apply Qok_close_others; auto.
+  - destruct kd. eapply Qok_grow; [| | |exact K0]; auto.
+    change (s_store (set_q r s)) with (s_store s).
+    destruct (s_store s); apply Qok_enq; try apply done_cbs_no_wfc; auto.
+  - apply Qok_enq; auto. intros i Hq. simpl in Hq; intuition discriminate.
+  - auto.
+  - apply Qok_enq; auto. apply done_cbs_no_wfc.
+  - eapply Qok_grow; [| | |exact K0]; auto.
+  - eapply Qok_grow; [| | |exact K0]; auto.
+Qed.
+
+Lemma IK_step1 s : Inv s -> Qok s -> Inv (step1 kd cb s) /\ Qok (step1 kd cb s).
+Proof.
+  intros I K. unfold step1. destruct (s_q s) eqn:Eq; auto. split.
+  apply Inv_run_item; auto. apply Qok_run_item; auto.
+Qed.
+
+Lemma IK_iter n s : Inv s -> Qok s -> Inv (iter kd cb n s) /\ Qok (iter kd cb n s).
+Proof. revert s; induction n; simpl; auto. intros s I K. destruct (IK_step1 s I K). apply IHn; auto. Qed.
+
+Lemma Inv_iter n s : Inv s -> Qok s -> Inv (iter kd cb n s).
+Proof. intros I K. apply IK_iter; auto. Qed.
 
 Lemma Inv_io_done s : Inv s -> Inv (io_done s).
 Proof.
@@ -313,9 +434,13 @@ Qed.
 Notation step := (step H h kd cb).
 Notation run := (run H h kd cb).
 
-Lemma Inv_step o s : Inv s -> Inv (fst (step o s)).
+(* the operations other than the two resets (a consuming read, delete()) *)
+Definition core_op (o : op) : Prop := match o with Read | Delete => False | _ => True end.
+Definition core_ops (ops : list op) : Prop := Forall core_op ops.
+
+Lemma Inv_step_core o s : core_op o -> Inv s -> Qok s -> Inv (fst (step o s)).
 Proof.
-  intros I. destruct o; simpl.
+  intros Co I K. destruct o; simpl in *; try contradiction.
   - apply Inv_set_length; auto.
   - apply Inv_open; auto.
   - apply Inv_write; auto.
@@ -326,35 +451,28 @@ Proof.
   - apply Inv_io_done; auto.
 Qed.
 
-Lemma Inv_run ops s : Inv s -> Inv (run ops s).
-Proof. revert s; induction ops; simpl; auto. intros; apply IHops. apply Inv_step; auto. Qed.
-
-Lemma only_matching ops :
-  let s := run ops init in
-  (s_verified s = true ->
-     exists b L, s_store s = Some b /\ s_len s = Some L /\ N.of_nat (length b) = L
-                 /\ (0 < L <= MAX_BLOB_SIZE)%N /\ H b = h)
-  /\ (forall b, s_store s = Some b ->
-     exists L, s_len s = Some L /\ N.of_nat (length b) = L /\ (0 < L <= MAX_BLOB_SIZE)%N /\ H b = h).
+Lemma Qok_step_core o s : core_op o -> Inv s -> Qok s -> Qok (fst (step o s)).
 Proof.
-  intros s. assert (I : Inv s) by (apply Inv_run, Inv_init).
-  destruct I as (I1 & I2 & I3 & I4 & I5 & I6 & I7).
-  assert (G : forall b, s_store s = Some b ->
-     exists L, s_len s = Some L /\ N.of_nat (length b) = L /\ (0 < L <= MAX_BLOB_SIZE)%N /\ H b = h).
-  { intros b Eb. destruct (I5 b Eb) as (L & E1 & E2 & E3 & E4). exists L. repeat split; auto. }
-  split; auto.
-  intros V. destruct (s_store s) as [b|] eqn:Es; [|exfalso; apply I6; auto].
-  destruct (G b eq_refl) as (L & X). exists b, L. tauto.
-Qed.
-
-(* every writer result is a complete correct copy *)
-Lemma writer_result_good ops i w b :
-  nth_error (s_ws (run ops init)) i = Some w -> w_fut w = FOk b ->
-  exists L, s_len (run ops init) = Some L /\ N.of_nat (length b) = L /\ (0 < L <= MAX_BLOB_SIZE)%N /\ H b = h.
-Proof.
-  intros Hn Ef. assert (I : Inv (run ops init)) by (apply Inv_run, Inv_init).
-  destruct I as (I1 & I2 & _). destruct (Forall_nth _ _ _ _ I2 Hn) as (A & _).
-  destruct (A b Ef) as (L & E1 & E2 & E3 & E4). exists L. repeat split; auto.
+  intros Co I K. assert (I2 := I). destruct I2 as (_ & I2 & _).
+  destruct o; simpl in *; try contradiction.
+  - unfold set_length. destruct (s_len s) eqn:El; auto.
+    destruct ((0 <=? n)%Z && (n <=? Z.of_N MAX_BLOB_SIZE)%Z); auto.
+    intros i w b Hq Hn Ef. simpl in *. destruct (K i w b Hq Hn Ef) as (L & X & _). congruence.
+  - unfold open_writer. destruct (file_exists kd s); simpl; auto.
+    match goal with |- context [if ?c then _ else _] => destruct c end; simpl; auto.
+    intros i w b Hq Hn Ef. simpl in *. destruct (Nat.lt_ge_cases i (length (s_ws s))) as [Hi|Hi].
+    + rewrite nth_error_app1 in Hn by auto. apply (K i w b); auto.
+    + rewrite nth_error_app2 in Hn by auto. destruct (i - length (s_ws s))%nat as [|n0]; simpl in Hn.
+      * inversion Hn; subst w. discriminate.
+      * destruct n0; discriminate.
+  - unfold write. destruct (nth_error (s_ws s) i); simpl; auto. apply Qok_app_w; auto. apply wtrans_write.
+  - apply Qok_app_w; auto. apply wtrans_close.
+  - apply Qok_close_blob; auto.
+  - apply IK_iter; auto.
+  - apply IK_iter; auto.
+  - unfold io_done. destruct (s_io s); auto. apply Qok_enq.
+    intros i Hq. simpl in Hq; intuition discriminate.
+    eapply Qok_grow; [| | |exact K]; auto.
 Qed.
 
 (* ------------------------------------------------------------------------------------------ *)
@@ -385,9 +503,9 @@ Proof. unfold step1. destruct (s_q s); auto. rewrite run_item_len. auto. Qed.
 Lemma iter_len n s : s_len (iter kd cb n s) = s_len s.
 Proof. revert s; induction n; simpl; auto. intros. rewrite IHn. apply step1_len. Qed.
 
-Lemma step_len_other o s : (forall n, o <> SetLength n) -> s_len (fst (step o s)) = s_len s.
+Lemma step_len_other o s : (forall n, o <> SetLength n) -> o <> Delete -> s_len (fst (step o s)) = s_len s.
 Proof.
-  intros Hno. destruct o; simpl.
+  intros Hno Hnd. destruct o; simpl.
   - exfalso; eapply Hno; eauto.
   - unfold open_writer. destruct (file_exists kd s); auto.
     match goal with |- context [if ?c then _ else _] => destruct c end; auto.
@@ -397,28 +515,30 @@ Proof.
   - apply iter_len.
   - apply iter_len.
   - unfold io_done. destruct (s_io s); auto.
+  - unfold read_blob. destruct (s_verified s); auto. destruct (s_store s); auto. destruct kd; auto.
+  - contradiction.
 Qed.
 
-Lemma step_len_kept o s L : s_len s = Some L -> s_len (fst (step o s)) = Some L.
+(* an accepted length changes by nothing but delete() *)
+Lemma step_len_kept o s L : o <> Delete -> s_len s = Some L -> s_len (fst (step o s)) = Some L.
 Proof.
-  intros E. destruct o; try (rewrite step_len_other; [auto|intros; discriminate]).
+  intros Hnd E. destruct o; try (rewrite step_len_other; [auto|intros; discriminate|auto]).
   simpl. unfold set_length. rewrite E. auto.
 Qed.
 
-Lemma run_len_kept ops s L : s_len s = Some L -> s_len (run ops s) = Some L.
-Proof. revert s; induction ops; simpl; auto. intros. apply IHops. apply step_len_kept; auto. Qed.
+Definition no_delete (ops : list op) : Prop := Forall (fun o => o <> Delete) ops.
+
+Lemma run_len_kept ops s L : no_delete ops -> s_len s = Some L -> s_len (run ops s) = Some L.
+Proof.
+  revert s; induction ops; simpl; auto. intros s Nd E. inversion Nd; subst.
+  apply IHops; auto. apply step_len_kept; auto.
+Qed.
 
 Lemma run_app ops1 ops2 s : run (ops1 ++ ops2) s = run ops2 (run ops1 s).
 Proof. unfold C01.run. apply fold_left_app. Qed.
 
-Lemma length_once_bounded ops1 ops2 L :
-  s_len (run ops1 init) = Some L ->
-  (L <= MAX_BLOB_SIZE)%N /\ s_len (run (ops1 ++ ops2) init) = Some L.
-Proof.
-  intros E. split.
-  - assert (I : Inv (run ops1 init)) by (apply Inv_run, Inv_init). destruct I as (I1 & _). auto.
-  - rewrite run_app. apply run_len_kept; auto.
-Qed.
+Lemma core_no_delete ops : core_ops ops -> no_delete ops.
+Proof. intros F. eapply Forall_impl; [|exact F]. intros o Co ->. exact Co. Qed.
 
 (* a length outside 0..2^21 is refused, whatever the state *)
 Lemma set_length_refused n s : (n < 0 \/ Z.of_N MAX_BLOB_SIZE < n)%Z -> set_length n s = s.
@@ -584,6 +704,9 @@ Qed.
 Lemma plain_fire i w fl : Forall plain (fire i w fl).
 Proof. destruct fl; simpl; repeat constructor. Qed.
 
+Lemma plain_no_task l x : Forall plain l -> ~ In (QTask x) l.
+Proof. intros F Hin. rewrite Forall_forall in F. apply (F _ Hin). Qed.
+
 Lemma same_ctl_app_w f i s : same_ctl s (app_w f i s).
 Proof.
   unfold app_w. destruct (nth_error (s_ws s) i); [|apply same_ctl_refl].
@@ -660,21 +783,33 @@ Proof.
   intros Hl. unfold stage_q. rewrite !cnt_plain; auto; intros []; simpl; tauto.
 Qed.
 
+Lemma cnt_zero_in p q it : cnt p q = 0%nat -> In it q -> p it = false.
+Proof.
+  unfold cnt. induction q; simpl; [tauto|]. intros Hc [->|Hin].
+  - destruct (p it); auto. simpl in Hc. discriminate.
+  - apply IHq; auto. destruct (p a); auto. simpl in Hc. discriminate.
+Qed.
+
+Lemma stage_zero_in q it : stage_q q = 0%nat -> In it q ->
+  is_task it = false /\ is_ss it = false /\ is_wk it = false /\ is_up it = false.
+Proof.
+  unfold stage_q. intros Z Hin. repeat split; eapply cnt_zero_in; eauto; lia.
+Qed.
+
 Definition Inv2 (s : state) : Prop :=
   (stage_q (s_q s) + io01 s = b2n (s_writing s))%nat
   /\ (s_verified s = true -> s_writing s = false)
-  /\ (s_completed s + cnt is_cp (s_q s) = if cb then b2n (s_verified s) + cnt is_up (s_q s) else 0)%nat
   /\ (s_store s <> None -> s_verified s = true \/ s_writing s = true).
 
 Lemma Inv2_init : Inv2 init.
-Proof. unfold Inv2, init; simpl. repeat split; auto; try congruence. destruct cb; auto. Qed.
+Proof. unfold Inv2, init; simpl. repeat split; auto; try congruence. Qed.
 
 Lemma Inv2_same_ctl s s' : same_ctl s s' -> Inv2 s -> Inv2 s'.
 Proof.
-  intros (A1 & A2 & A3 & A4 & A5 & A6 & l & A7 & A8) (I1 & I2 & I3 & I4).
-  unfold Inv2, io01. rewrite A1, A2, A3, A4, A5, A7. rewrite stage_app, !cnt_app.
-  rewrite (stage_plain l) by auto. rewrite !(cnt_plain _ l) by (auto; intros []; simpl; tauto).
-  unfold io01 in I1. repeat split; auto; try lia. destruct cb; lia.
+  intros (A1 & A2 & A3 & A4 & A5 & A6 & l & A7 & A8) (I1 & I2 & I4).
+  unfold Inv2, io01. rewrite ?A1, ?A2, ?A3, ?A4, ?A7. rewrite stage_app.
+  rewrite (stage_plain l) by auto.
+  unfold io01 in I1. repeat split; auto; try lia.
 Qed.
 
 Lemma stage_done_cbs : stage_q (done_cbs cb) = 1%nat.
@@ -687,21 +822,19 @@ Proof. unfold done_cbs. destruct cb; reflexivity. Qed.
 Lemma Inv2_save_verified b s : Inv2 s -> Inv2 (save_verified kd b s).
 Proof.
   intros I. unfold save_verified. destruct (s_verified s) eqn:V; auto.
-  destruct (writeable kd s) eqn:W; auto. destruct I as (I1 & I2 & I3 & I4).
+  destruct (writeable kd s) eqn:W; auto. destruct I as (I1 & I2 & I4).
   unfold writeable in W. apply andb_true_iff in W. destruct W as [W1 W2]. apply negb_true_iff in W1.
-  unfold Inv2, io01 in *; simpl. rewrite V, W1 in *. rewrite stage_app, !cnt_app. simpl in *.
+  unfold Inv2, io01 in *; simpl. rewrite V, W1 in *. rewrite stage_app, ?cnt_app. simpl in *.
   change (stage_q [QTask b]) with 1%nat. change (cnt is_cp [QTask b]) with O. change (cnt is_up [QTask b]) with O.
-  repeat split; auto; try congruence; try lia. destruct cb; lia.
+  repeat split; auto; try congruence; try lia.
 Qed.
 
 Lemma Inv2_run_item it r s : Inv2 s -> s_q s = it :: r -> Inv2 (run_item kd cb it (set_q r s)).
 Proof.
-  intros (I1 & I2 & I3 & I4) Eq. rewrite Eq in *.
+  intros (I1 & I2 & I4) Eq. rewrite Eq in *.
   assert (P : forall it', plain it' -> it = it' -> Inv2 (set_q r s)).
   { intros it' Hp ->. unfold Inv2, io01 in *; simpl.
     replace (stage_q (it' :: r)) with (stage_q r) in I1 by (destruct it'; simpl in Hp; try tauto; reflexivity).
-    replace (cnt is_cp (it' :: r)) with (cnt is_cp r) in I3 by (destruct it'; simpl in Hp; try tauto; reflexivity).
-    replace (cnt is_up (it' :: r)) with (cnt is_up r) in I3 by (destruct it'; simpl in Hp; try tauto; reflexivity).
     repeat split; auto. }
   destruct it; simpl.
   - eapply Inv2_same_ctl; [apply same_ctl_app_w|]. eapply P; simpl; eauto. simpl; auto.
@@ -710,9 +843,9 @@ Proof.
     destruct (nth_error (s_ws s) i); auto. destruct (w_fut w); auto.
     apply Inv2_save_verified. eapply Inv2_same_ctl; [apply same_ctl_close_others|]. auto.
   - (* QTask *)
-    rewrite stage_cons in I1. rewrite (cnt_cons is_cp), (cnt_cons is_up) in I3.
-    change (stage_q [QTask b]) with 1%nat in I1. change (cnt is_cp [QTask b]) with O in I3. change (cnt is_up [QTask b]) with O in I3.
-    simpl plus in I1, I3.
+    rewrite stage_cons in I1.
+    change (stage_q [QTask b]) with 1%nat in I1.
+    simpl plus in I1.
     assert (Wr : s_writing s = true) by (destruct (s_writing s); simpl in I1; auto; lia).
     assert (V : s_verified s = false) by (destruct (s_verified s); auto; rewrite I2 in Wr; auto; discriminate).
     unfold io01 in I1. rewrite Wr in I1. simpl in I1.
@@ -720,40 +853,40 @@ Proof.
     destruct kd.
     + unfold Inv2, io01; simpl. rewrite Wr, V in *. repeat split; auto; try congruence; simpl; try lia; try (destruct cb; simpl in *; lia).
     + assert (X : Inv2 (enq (done_cbs cb) (set_q r s))).
-      { unfold Inv2, io01, enq; simpl. rewrite Wr, V, Io in *. rewrite stage_app, !cnt_app.
-        rewrite stage_done_cbs, cnt_up_done_cbs, cnt_cp_done_cbs.
+      { unfold Inv2, io01, enq; simpl. rewrite Wr, V, Io in *. rewrite stage_app, ?cnt_app.
+        rewrite stage_done_cbs.
         repeat split; auto; try congruence; simpl; try lia; try (destruct cb; simpl in *; lia). }
       destruct (s_store s) eqn:Es; auto.
-      destruct X as (X1 & X2 & X3 & X4). unfold Inv2, io01, enq in *; simpl in *. repeat split; auto.
+      destruct X as (X1 & X2 & X4). unfold Inv2, io01, enq in *; simpl in *. repeat split; auto.
   - (* QSetState *)
-    rewrite stage_cons in I1. rewrite (cnt_cons is_cp), (cnt_cons is_up) in I3.
-    change (stage_q [QSetState]) with 1%nat in I1. change (cnt is_cp [QSetState]) with O in I3. change (cnt is_up [QSetState]) with O in I3.
-    simpl plus in I1, I3.
-    unfold Inv2, io01, enq in *; simpl. rewrite stage_app, !cnt_app.
+    rewrite stage_cons in I1.
+    change (stage_q [QSetState]) with 1%nat in I1.
+    simpl plus in I1.
+    unfold Inv2, io01, enq in *; simpl. rewrite stage_app, ?cnt_app.
     change (stage_q [QNop; QWakeup]) with 1%nat. change (cnt is_cp [QNop; QWakeup]) with O. change (cnt is_up [QNop; QWakeup]) with O.
     repeat split; auto; try congruence; rewrite <- ?plus_n_O; auto; try lia; try (destruct cb; simpl in *; lia).
   - eapply P; simpl; eauto. simpl; auto.
   - (* QWakeup *)
-    rewrite stage_cons in I1. rewrite (cnt_cons is_cp), (cnt_cons is_up) in I3.
-    change (stage_q [QWakeup]) with 1%nat in I1. change (cnt is_cp [QWakeup]) with O in I3. change (cnt is_up [QWakeup]) with O in I3.
-    simpl plus in I1, I3.
+    rewrite stage_cons in I1.
+    change (stage_q [QWakeup]) with 1%nat in I1.
+    simpl plus in I1.
     assert (Wr : s_writing s = true) by (destruct (s_writing s); simpl in I1; auto; lia).
     assert (V : s_verified s = false) by (destruct (s_verified s); auto; rewrite I2 in Wr; auto; discriminate).
-    unfold Inv2, io01, enq in *; simpl. rewrite stage_app, !cnt_app.
-    rewrite stage_done_cbs, cnt_up_done_cbs, cnt_cp_done_cbs. rewrite V in *.
+    unfold Inv2, io01, enq in *; simpl. rewrite stage_app, ?cnt_app.
+    rewrite stage_done_cbs. rewrite V in *.
     repeat split; auto; try congruence; try lia; try (destruct cb; simpl in *; lia).
   - (* QUpdate *)
-    rewrite stage_cons in I1. rewrite (cnt_cons is_cp), (cnt_cons is_up) in I3.
-    change (stage_q [QUpdate]) with 1%nat in I1. change (cnt is_cp [QUpdate]) with O in I3. change (cnt is_up [QUpdate]) with 1%nat in I3.
-    simpl plus in I1, I3.
+    rewrite stage_cons in I1.
+    change (stage_q [QUpdate]) with 1%nat in I1.
+    simpl plus in I1.
     assert (Wr : s_writing s = true) by (destruct (s_writing s); simpl in I1; auto; lia).
     assert (V : s_verified s = false) by (destruct (s_verified s); auto; rewrite I2 in Wr; auto; discriminate).
     unfold Inv2, io01 in *; simpl. rewrite Wr, V in *. simpl in *.
     repeat split; auto; try congruence; try lia; try (destruct cb; simpl in *; lia).
   - (* QCompleted *)
-    rewrite stage_cons in I1. rewrite (cnt_cons is_cp), (cnt_cons is_up) in I3.
-    change (stage_q [QCompleted]) with O in I1. change (cnt is_cp [QCompleted]) with 1%nat in I3. change (cnt is_up [QCompleted]) with O in I3.
-    simpl plus in I1, I3.
+    rewrite stage_cons in I1.
+    change (stage_q [QCompleted]) with O in I1.
+    simpl plus in I1.
     unfold Inv2, io01 in *; simpl. repeat split; auto; try congruence; try lia; try (destruct cb; simpl in *; lia).
 Qed.
 
@@ -765,11 +898,25 @@ Proof. revert s; induction n; simpl; auto. intros; apply IHn. apply Inv2_step1; 
 
 Lemma Inv2_io_done s : Inv2 s -> Inv2 (io_done s).
 Proof.
-  intros (I1 & I2 & I3 & I4). unfold io_done. destruct (s_io s) eqn:Ei; [|repeat split; auto].
-  unfold Inv2, io01, enq in *; simpl. rewrite Ei in *. rewrite stage_app, !cnt_app.
+  intros (I1 & I2 & I4). unfold io_done. destruct (s_io s) eqn:Ei; [|repeat split; auto].
+  unfold Inv2, io01, enq in *; simpl. rewrite Ei in *. rewrite stage_app, ?cnt_app.
   change (stage_q [QSetState]) with 1%nat. change (cnt is_cp [QSetState]) with O. change (cnt is_up [QSetState]) with O.
   assert (Wr : s_writing s = true) by (destruct (s_writing s); simpl in I1; auto; lia).
   repeat split; auto; try congruence; rewrite <- ?plus_n_O; auto; try lia; try (destruct cb; simpl in *; lia).
+Qed.
+
+Lemma Inv2_read s : Inv2 s -> Inv2 (fst (read_blob kd s)).
+Proof.
+  intros I. unfold read_blob. destruct (s_verified s) eqn:V; simpl; auto.
+  destruct (s_store s) eqn:Es; simpl; auto. destruct kd; auto.
+  destruct I as (I1 & I2 & I4). unfold Inv2, io01 in *; simpl. repeat split; auto; try discriminate; try congruence.
+Qed.
+
+Lemma Inv2_delete s : Inv2 s -> Inv2 (fst (delete_blob s)).
+Proof.
+  intros I. unfold delete_blob. destruct (settled s); auto. simpl.
+  assert (X : Inv2 (close_blob s)) by (eapply Inv2_same_ctl; [apply same_ctl_close_blob|auto]).
+  destruct X as (I1 & I2 & I4). unfold Inv2, io01 in *; simpl in *. repeat split; auto; try discriminate; try congruence.
 Qed.
 
 Lemma Inv2_step o s : Inv2 s -> Inv2 (fst (step o s)).
@@ -784,6 +931,8 @@ Proof.
   - apply Inv2_iter; auto.
   - apply Inv2_iter; auto.
   - apply Inv2_io_done; auto.
+  - apply Inv2_read; auto.
+  - apply Inv2_delete; auto.
 Qed.
 
 Lemma Inv2_run ops s : Inv2 s -> Inv2 (run ops s).
@@ -872,6 +1021,15 @@ Proof.
   eapply wmono_trans; [apply wmono_step1|apply IHn].
 Qed.
 
+Lemma read_frame s :
+  let s' := fst (read_blob kd s) in
+  s_ws s' = s_ws s /\ s_q s' = s_q s /\ s_map s' = s_map s /\ s_len s' = s_len s /\ s_io s' = s_io s
+  /\ s_writing s' = s_writing s /\ s_completed s' = s_completed s.
+Proof.
+  unfold read_blob. destruct (s_verified s); simpl; [|tauto]. destruct (s_store s); simpl; [|tauto].
+  destruct kd; simpl; tauto.
+Qed.
+
 Lemma wmono_step o s : wmono s (fst (step o s)).
 Proof.
   destruct o; simpl.
@@ -887,6 +1045,9 @@ Proof.
   - apply wmono_iter.
   - apply wmono_iter.
   - apply wmono_ws. unfold io_done. destruct (s_io s); auto.
+  - apply wmono_ws. apply read_frame.
+  - unfold delete_blob. destruct (settled s); simpl; [|apply wmono_refl].
+    eapply wmono_trans; [apply wmono_close_blob|apply wmono_ws; reflexivity].
 Qed.
 
 Lemma wmono_run ops s : wmono s (run ops s).
@@ -1094,7 +1255,7 @@ Proof.
   - destruct Wn as (i & w & b & A & B & C). rewrite Eq in A. destruct A as [A|A].
     + subst it. simpl. change (s_ws (set_q r s)) with (s_ws s). rewrite B, C.
       destruct (save_verified_live b (close_others i (set_q r s))) as [X|X]; [|left; auto|right; left; auto].
-      destruct I2 as (_ & _ & _ & E4).
+      destruct I2 as (_ & _ & E4).
       destruct (same_ctl_close_others i (set_q r s)) as (X1 & X2 & _ & X4 & _). rewrite X1, X2, X4. auto.
     + right; right. destruct (run_item_q it (set_q r s)) as (l & Q).
       eapply won_mono; [apply wmono_run_item| |exists i, w, b; repeat split; eauto].
@@ -1113,9 +1274,9 @@ Proof.
   right; right. exists i, w, b. simpl. repeat split; auto. apply in_or_app; auto.
 Qed.
 
-Lemma Live_step o s : Inv2 s -> Live s -> Live (fst (step o s)).
+Lemma Live_step o s : core_op o -> Inv2 s -> Live s -> Live (fst (step o s)).
 Proof.
-  intros I2 Lv. destruct o; simpl.
+  intros Co I2 Lv. destruct o; simpl in *; try contradiction.
   - unfold set_length. destruct (s_len s); auto.
     destruct ((0 <=? n)%Z && (n <=? Z.of_N MAX_BLOB_SIZE)%Z); auto.
   - eapply Live_neutral; [apply same_ctl_open|apply (wmono_step (Open k))|auto].
@@ -1127,9 +1288,10 @@ Proof.
   - apply Live_io_done; auto.
 Qed.
 
-Lemma Live_run ops s : Inv2 s -> Live s -> Live (run ops s).
+Lemma Live_run ops s : core_ops ops -> Inv2 s -> Live s -> Live (run ops s).
 Proof.
-  revert s; induction ops; simpl; auto. intros. apply IHops. apply Inv2_step; auto. apply Live_step; auto.
+  revert s; induction ops; simpl; auto. intros s Co I2 Lv. inversion Co; subst.
+  apply IHops; auto. apply Inv2_step; auto. apply Live_step; auto.
 Qed.
 
 (* whatever happens afterwards: when nothing is left to run and no write is pending in the executor, the
@@ -1288,7 +1450,9 @@ Proof.
   - apply Cl_close_blob; auto.
   - apply Cl_iter; auto.
   - apply Cl_iter; auto.
-  - eapply Cl_grow; [| |exact C]; unfold io_done; destruct (s_io s); auto. intros it Hin. simpl. apply in_or_app; auto.
+  - eapply Cl_grow; [| |exact C]; unfold io_done; destruct (s_io s); auto. intros it Hin. simpl. apply in_or_app; auto.  - destruct (read_frame s) as (E1 & E2 & _). eapply Cl_grow; [exact E1| |exact C]. intros it Hin. rewrite E2; auto.
+  - unfold delete_blob. destruct (settled s); simpl; auto.
+    apply Cl_grow with (s := close_blob s); auto. apply Cl_close_blob; auto.
 Qed.
 
 Lemma Cl_run ops s : Cl s -> Cl (run ops s).
@@ -1617,12 +1781,109 @@ Proof.
   - apply Reg_iter; auto.
   - eapply Reg_grow_q; [| | |exact R]; unfold io_done; destruct (s_io s); auto.
     simpl. intros k j Hq. apply in_app_or in Hq; destruct Hq as [Hq|Hq]; auto. simpl in Hq; intuition discriminate.
+  - destruct (read_frame s) as (E1 & E2 & E3 & _). eapply Reg_grow_q; [exact E1|exact E3| |exact R].
+    intros k j Hq. rewrite E2 in Hq; auto.
+  - unfold delete_blob. destruct (settled s); simpl; auto.
+    apply Reg_grow_q with (s := close_blob s); auto. apply Reg_close_blob; auto.
 Qed.
 
-Lemma Reg_run ops : forall s, Inv s -> Reg s -> Reg (run ops s).
+(* ------------------------------------------------------------------------------------------ *)
+(* the two resets; all invariants together                                                    *)
+(* ------------------------------------------------------------------------------------------ *)
+Lemma w_ok_unset len w : fut_done (w_fut w) = true -> w_ok len w -> w_ok None w.
 Proof.
-  induction ops; simpl; auto. intros s I R. apply IHops; auto. apply Inv_step; auto. apply Reg_step; auto.
+  intros D (A & B & C & F & G). apply fut_done_true in D. split5; auto.
+  - intros _ P. contradiction.
+  - intros _ P. contradiction.
+  - intros L E. discriminate.
 Qed.
+
+Lemma Inv_read s : Inv s -> Inv2 s -> Inv (fst (read_blob kd s)).
+Proof.
+  intros I J. unfold read_blob. destruct (s_verified s) eqn:V; simpl; auto.
+  destruct (s_store s) eqn:Es; simpl; auto. destruct kd; auto.
+  destruct I as (I1 & I2 & I3 & I4 & I5 & I6 & I7). destruct J as (J1 & J2 & _).
+  assert (Z : stage_q (s_q s) = 0%nat) by (rewrite (J2 V) in J1; simpl in J1; lia).
+  unfold Inv, goodS in *; simpl. repeat split; auto; try discriminate.
+  intros [X|[X|X]]; destruct (stage_zero_in _ _ Z X) as (A & B & C & D); discriminate.
+Qed.
+
+Lemma settled_spec s : settled s = true -> s_q s = [] /\ s_io s = None /\ s_writing s = false.
+Proof.
+  unfold settled. destruct (s_q s); [|discriminate]. destruct (s_io s); [discriminate|].
+  intros X. apply negb_true_iff in X. auto.
+Qed.
+
+Lemma Inv_delete s : Inv s -> Reg s -> Inv (fst (delete_blob s)).
+Proof.
+  intros I R. unfold delete_blob. destruct (settled s) eqn:St; simpl; auto.
+  destruct (settled_spec s St) as (Q & Io & W).
+  pose proof (Inv_close_blob s I) as (C1 & C2 & C3 & C4 & C5 & C6 & C7).
+  pose proof (NP_close_blob s R) as Np.
+  destruct (same_ctl_close_blob s) as (_ & _ & A3 & _ & _ & _ & l & A7 & A8). rewrite Q in A7. change ([] ++ l) with l in A7.
+  unfold Inv, goodS. cbn [s_len s_ws s_q s_io s_store s_verified set_len set_store set_verified].
+  rewrite A3, A7, Io. repeat split; auto; try discriminate.
+  - apply Forall_forall. intros w Hin. destruct (In_nth_error _ _ Hin) as (i & Hn).
+    eapply w_ok_unset; [eapply Np; eauto|]. rewrite Forall_forall in C2. apply C2; auto.
+  - intros b Hin. exfalso; eapply plain_no_task; eauto.
+  - intros [X|[X|X]]; rewrite Forall_forall in A8; exfalso; apply (A8 _ X).
+Qed.
+
+Lemma Qok_read s : Qok s -> Qok (fst (read_blob kd s)).
+Proof.
+  intros K. destruct (read_frame s) as (E1 & E2 & _ & E4 & _).
+  eapply Qok_grow; [exact E1|exact E4| |exact K]. intros i Hq. rewrite E2 in Hq; auto.
+Qed.
+
+Lemma close_blob_wfc_cancelled s : s_q s = [] ->
+  forall i, In (QWfc i) (s_q (close_blob s)) ->
+  exists w, nth_error (s_ws (close_blob s)) i = Some w /\ w_fut w = FCancelled.
+Proof.
+  intros Q. unfold close_blob. simpl.
+  set (P := fun st => forall i, In (QWfc i) (s_q st) ->
+                      exists w, nth_error (s_ws st) i = Some w /\ w_fut w = FCancelled).
+  change (P (fold_right (fun (kj : N * nat) st => cancel (snd kj) st) s (s_map s))).
+  apply fold_pres.
+  - intros x st Hst i Hq. unfold cancel, app_w in *. destruct (nth_error (s_ws st) (snd x)) as [w0|] eqn:Hj; auto.
+    unfold cancel_w in *. destruct (fut_done (w_fut w0)) eqn:D; simpl in *.
+    + rewrite app_nil_r in Hq. rewrite (upd_same _ _ _ Hj). auto.
+    + apply in_app_or in Hq. destruct Hq as [Hq|Hq].
+      * destruct (Hst i Hq) as (w & N & F). destruct (Nat.eq_dec (snd x) i) as [E|Hne].
+        -- rewrite E in Hj. rewrite Hj in N. inversion N; subst. rewrite F in D. discriminate.
+        -- exists w. rewrite nth_error_upd_neq by auto. auto.
+      * destruct Hq as [Hq|[Hq|[Hq|[]]]]; try discriminate. inversion Hq; subst i.
+        eexists. erewrite nth_error_upd_eq by eauto. split; [reflexivity|]. reflexivity.
+  - intros i Hq. rewrite Q in Hq. destruct Hq.
+Qed.
+
+Lemma Qok_delete s : Qok s -> Qok (fst (delete_blob s)).
+Proof.
+  intros K. unfold delete_blob. destruct (settled s) eqn:St; simpl; auto.
+  destruct (settled_spec s St) as (Q & _).
+  intros i w b Hq Hn Ef.
+  change (In (QWfc i) (s_q (close_blob s))) in Hq. change (nth_error (s_ws (close_blob s)) i = Some w) in Hn.
+  destruct (close_blob_wfc_cancelled s Q i Hq) as (w' & N & F). rewrite Hn in N. inversion N; subst. congruence.
+Qed.
+
+Definition All (s : state) : Prop := Inv s /\ Inv2 s /\ Qok s /\ Reg s /\ Cl s.
+
+Lemma All_init : All init.
+Proof. repeat split; try apply Inv_init; try apply Inv2_init; try apply Qok_init; try apply Reg_init; try apply Cl_init. Qed.
+
+Lemma All_step o s : All s -> All (fst (step o s)).
+Proof.
+  intros (I & J & K & R & C). unfold All.
+  split; [|split; [apply Inv2_step; auto|split; [|split; [apply Reg_step; auto|apply Cl_step; auto]]]].
+  - destruct o; try (apply Inv_step_core; simpl; auto; fail).
+    + apply Inv_read; auto.
+    + apply Inv_delete; auto.
+  - destruct o; try (apply Qok_step_core; simpl; auto; fail).
+    + apply Qok_read; auto.
+    + apply Qok_delete; auto.
+Qed.
+
+Lemma All_run ops : forall s, All s -> All (run ops s).
+Proof. induction ops; simpl; auto. intros s A. apply IHops. apply All_step; auto. Qed.
 
 (* the winner's callback closes every registered writer: nothing stays pending *)
 Definition PW (s : state) : Prop := NP s \/ won s.
@@ -1649,11 +1910,156 @@ Lemma PW_quiescent s : PW s -> s_q s = [] -> NP s.
 Proof. intros [Np|(i & _ & _ & A & _)] Q; auto. rewrite Q in A. destruct A. Qed.
 
 (* ------------------------------------------------------------------------------------------ *)
+(* the completion callback: one call per save.  [Psi] = calls made + calls queued + saves that *)
+(* are in flight or still owed (blob neither verified nor being saved) is conserved by every  *)
+(* operation other than the two resets                                                        *)
+(* ------------------------------------------------------------------------------------------ *)
+Definition tok_q (q : list qitem) : nat := (cnt is_task q + cnt is_ss q + cnt is_wk q)%nat.
+Definition owed (s : state) : nat := b2n (negb (s_verified s) && negb (s_writing s)).
+Definition Psi (s : state) : nat :=
+  (s_completed s + cnt is_cp (s_q s) + if cb then tok_q (s_q s) + io01 s + owed s else 0)%nat.
+
+Lemma cnt_single p it : cnt p [it] = b2n (p it).
+Proof. unfold cnt. simpl. destruct (p it); auto. Qed.
+
+Lemma tok_app a b : tok_q (a ++ b) = (tok_q a + tok_q b)%nat.
+Proof. unfold tok_q. rewrite !cnt_app. lia. Qed.
+Lemma tok_cons it r : tok_q (it :: r) = (tok_q [it] + tok_q r)%nat.
+Proof. apply (tok_app [it] r). Qed.
+Lemma tok_plain l : Forall plain l -> tok_q l = 0%nat.
+Proof. intros Hl. unfold tok_q. rewrite !cnt_plain; auto; intros []; simpl; tauto. Qed.
+Lemma tok_done_cbs : tok_q (done_cbs cb) = 0%nat.
+Proof. unfold done_cbs. destruct cb; reflexivity. Qed.
+Lemma tok_single it : tok_q [it] = (b2n (is_task it) + b2n (is_ss it) + b2n (is_wk it))%nat.
+Proof. unfold tok_q. rewrite !cnt_single. reflexivity. Qed.
+Arguments tok_q : simpl never.
+
+Lemma Psi_same_ctl s s' : same_ctl s s' -> Psi s' = Psi s.
+Proof.
+  intros (A1 & A2 & A3 & A4 & A5 & A6 & l & A7 & A8). unfold Psi, owed, io01.
+  rewrite A1, A2, A3, A5, A7. rewrite cnt_app, tok_app. rewrite (tok_plain l) by auto.
+  rewrite (cnt_plain is_cp l) by (auto; intros []; simpl; tauto). destruct cb; lia.
+Qed.
+
+Lemma Psi_save_verified b s : Psi (save_verified kd b s) = Psi s.
+Proof.
+  unfold save_verified. destruct (s_verified s) eqn:V; auto. destruct (writeable kd s) eqn:W; auto.
+  unfold writeable in W. apply andb_true_iff in W. destruct W as [W1 _]. apply negb_true_iff in W1.
+  unfold Psi, owed, io01, enq; simpl. rewrite V, W1. rewrite cnt_app, tok_app. rewrite cnt_single.
+  change (tok_q [QTask b]) with 1%nat. simpl. destruct cb; lia.
+Qed.
+
+Lemma Psi_run_item it r s : Inv2 s -> s_q s = it :: r -> Psi (run_item kd cb it (set_q r s)) = Psi s.
+Proof.
+  intros (I1 & I2 & I4) Eq.
+  assert (P0 : Psi s = (Psi (set_q r s) + b2n (is_cp it) + if cb then tok_q [it] else 0)%nat).
+  { unfold Psi, owed, io01; simpl. rewrite Eq. rewrite cnt_cons, tok_cons, cnt_single. destruct cb; lia. }
+  rewrite Eq, stage_cons in I1. rewrite tok_single in P0.
+  destruct it; simpl run_item; simpl in P0.
+  - unfold close_handle. rewrite (Psi_same_ctl _ _ (same_ctl_app_w _ _ _)). rewrite P0. simpl. destruct cb; reflexivity || lia.
+  - rewrite (Psi_same_ctl _ _ (same_ctl_set_map _ _)). rewrite P0. simpl. destruct cb; reflexivity || lia.
+  - assert (X : Psi (set_q r s) = Psi s) by (rewrite P0; simpl; destruct cb; reflexivity || lia).
+    change (s_ws (set_q r s)) with (s_ws s). destruct (nth_error (s_ws s) i); auto. destruct (w_fut w); auto.
+    rewrite Psi_save_verified. rewrite (Psi_same_ctl _ _ (same_ctl_close_others _ _)). auto.
+  - (* QTask *)
+    change (stage_q [QTask b]) with 1%nat in I1.
+    assert (Wr : s_writing s = true) by (destruct (s_writing s); simpl in I1; auto; lia).
+    assert (V : s_verified s = false) by (destruct (s_verified s); auto; rewrite I2 in Wr; auto; discriminate).
+    unfold io01 in I1. rewrite Wr in I1. simpl in I1.
+    assert (Io : s_io s = None) by (destruct (s_io s); auto; lia).
+    rewrite P0. change (tok_q [QTask b]) with 1%nat. destruct kd.
+    + unfold Psi, owed, io01; simpl. rewrite Io. destruct cb; lia.
+    + change (s_store (set_q r s)) with (s_store s).
+      destruct (s_store s); unfold Psi, owed, io01, enq; simpl; rewrite cnt_app, tok_app, tok_done_cbs, cnt_cp_done_cbs;
+        destruct cb; simpl; lia.
+  - rewrite P0. change (tok_q [QSetState]) with 1%nat. unfold Psi, owed, io01, enq; simpl.
+    rewrite cnt_app, tok_app. change (tok_q [QNop; QWakeup]) with 1%nat. change (cnt is_cp [QNop; QWakeup]) with 0%nat.
+    destruct cb; lia.
+  - rewrite P0. simpl. destruct cb; reflexivity || lia.
+  - rewrite P0. change (tok_q [QWakeup]) with 1%nat. unfold Psi, owed, io01, enq; simpl.
+    rewrite cnt_app, tok_app, tok_done_cbs, cnt_cp_done_cbs. destruct cb; simpl; lia.
+  - (* QUpdate *)
+    change (stage_q [QUpdate]) with 1%nat in I1.
+    assert (Wr : s_writing s = true) by (destruct (s_writing s); simpl in I1; auto; lia).
+    rewrite P0. change (tok_q [QUpdate]) with 0%nat. unfold Psi, owed, io01; simpl. rewrite Wr.
+    rewrite andb_false_r. simpl. destruct cb; lia.
+  - rewrite P0. change (tok_q [QCompleted]) with 0%nat. unfold Psi, owed, io01; simpl. destruct cb; lia.
+Qed.
+
+Lemma Psi_iter n : forall s, Inv2 s -> Psi (iter kd cb n s) = Psi s.
+Proof.
+  induction n; simpl; auto. intros s I. rewrite IHn by (apply Inv2_step1; auto).
+  unfold step1. destruct (s_q s) eqn:Eq; auto. apply Psi_run_item; auto.
+Qed.
+
+Lemma Psi_io_done s : Psi (io_done s) = Psi s.
+Proof.
+  unfold io_done. destruct (s_io s) eqn:Ei; auto. unfold Psi, owed, io01, enq; simpl. rewrite Ei.
+  rewrite cnt_app, tok_app. change (tok_q [QSetState]) with 1%nat. change (cnt is_cp [QSetState]) with 0%nat.
+  destruct cb; lia.
+Qed.
+
+Lemma Psi_step o s : core_op o -> Inv2 s -> Psi (fst (step o s)) = Psi s.
+Proof.
+  intros Co I. destruct o; simpl in *; try contradiction.
+  - unfold set_length. destruct (s_len s); auto. destruct ((0 <=? n)%Z && (n <=? Z.of_N MAX_BLOB_SIZE)%Z); auto.
+  - apply Psi_same_ctl. apply same_ctl_open.
+  - apply Psi_same_ctl. apply same_ctl_write.
+  - apply Psi_same_ctl. apply same_ctl_app_w.
+  - apply Psi_same_ctl. apply same_ctl_close_blob.
+  - apply Psi_iter; auto.
+  - apply Psi_iter; auto.
+  - apply Psi_io_done.
+Qed.
+
+Lemma Psi_run ops : forall s, core_ops ops -> Inv2 s -> Psi (run ops s) = Psi s.
+Proof.
+  induction ops; simpl; auto. intros s Co I. inversion Co; subst.
+  rewrite IHops; auto. apply Psi_step; auto. apply Inv2_step; auto.
+Qed.
+
+(* ------------------------------------------------------------------------------------------ *)
 (* assembled statements                                                                       *)
 (* ------------------------------------------------------------------------------------------ *)
-Lemma reach_all ops : let s := run ops init in Inv s /\ Inv2 s /\ Cl s.
+Lemma reach_all ops : All (run ops init).
+Proof. apply All_run, All_init. Qed.
+
+Lemma only_matching ops :
+  let s := run ops init in
+  (s_verified s = true ->
+     exists b L, s_store s = Some b /\ s_len s = Some L /\ N.of_nat (length b) = L
+                 /\ (0 < L <= MAX_BLOB_SIZE)%N /\ H b = h)
+  /\ (forall b, s_store s = Some b ->
+     exists L, s_len s = Some L /\ N.of_nat (length b) = L /\ (0 < L <= MAX_BLOB_SIZE)%N /\ H b = h).
 Proof.
-  simpl. split; [|split]. apply Inv_run, Inv_init. apply Inv2_run, Inv2_init. apply Cl_run, Cl_init.
+  intros s. destruct (reach_all ops) as (I & _). fold s in I.
+  destruct I as (I1 & I2 & I3 & I4 & I5 & I6 & I7).
+  assert (G : forall b, s_store s = Some b ->
+     exists L, s_len s = Some L /\ N.of_nat (length b) = L /\ (0 < L <= MAX_BLOB_SIZE)%N /\ H b = h).
+  { intros b Eb. destruct (I5 b Eb) as (L & E1 & E2 & (E3 & E4)). subst L. eexists. repeat split; eauto; lia. }
+  split; auto.
+  intros V. destruct (s_store s) as [b|] eqn:Es; [|exfalso; apply I6; auto].
+  destruct (G b eq_refl) as (L & X). exists b, L. tauto.
+Qed.
+
+(* every writer result is a complete correct copy of an admissible size (its length was the accepted length when
+   it completed: writer_write_exact) *)
+Lemma writer_result_good ops i w b :
+  nth_error (s_ws (run ops init)) i = Some w -> w_fut w = FOk b ->
+  (0 < N.of_nat (length b) <= MAX_BLOB_SIZE)%N /\ H b = h.
+Proof.
+  intros Hn Ef. destruct (reach_all ops) as (I & _).
+  destruct I as (I1 & I2 & _). destruct (Forall_nth _ _ _ _ I2 Hn) as (A & _). apply A; auto.
+Qed.
+
+(* an accepted length is at most 2^21 and is changed by nothing but delete() *)
+Lemma length_once_bounded ops1 ops2 L :
+  s_len (run ops1 init) = Some L ->
+  (L <= MAX_BLOB_SIZE)%N /\ (no_delete ops2 -> s_len (run (ops1 ++ ops2) init) = Some L).
+Proof.
+  intros E. split.
+  - destruct (reach_all ops1) as (I & _). destruct I as (I1 & _). auto.
+  - intros Nd. rewrite run_app. apply run_len_kept; auto.
 Qed.
 
 (* the state right after a live writer received the bytes completing a correct copy *)
@@ -1680,11 +2086,11 @@ Proof.
   - apply in_or_app; right. simpl; auto.
 Qed.
 
-Lemma stored_good s L : Inv s -> s_len s = Some L -> s_verified s = true ->
-  exists b, s_store s = Some b /\ H b = h /\ N.of_nat (length b) = L.
+Lemma stored_good s : Inv s -> s_verified s = true ->
+  exists b L, s_store s = Some b /\ s_len s = Some L /\ H b = h /\ N.of_nat (length b) = L.
 Proof.
-  intros (_ & _ & _ & _ & I5 & I6 & _) El V. destruct (s_store s) as [b|] eqn:Es; [|exfalso; apply I6; auto].
-  destruct (I5 b eq_refl) as (L' & E1 & _ & E3 & E4). exists b. repeat split; auto. congruence.
+  intros (_ & _ & _ & _ & I5 & I6 & _) V. destruct (s_store s) as [b|] eqn:Es; [|exfalso; apply I6; auto].
+  destruct (I5 b eq_refl) as (L' & E1 & E2 & (E3 & E4)). exists b, L'. repeat split; auto.
 Qed.
 
 Lemma first_copy_wins ops i w d L :
@@ -1692,41 +2098,58 @@ Lemma first_copy_wins ops i w d L :
   nth_error (s_ws s) i = Some w -> w_open w = true -> w_fut w = FPending -> s_len s = Some L -> (0 < L)%N ->
   N.of_nat (length (w_buf w ++ d)) = L -> H (w_buf w ++ d) = h ->
   let s1 := fst (step (Write i d) s) in
-  (* whatever operations follow: once the loop is idle and the executor has nothing pending, verified *)
-  (forall ops', let s' := run ops' s1 in s_q s' = [] -> s_io s' = None ->
+  (* whatever operations (other than a reset of the object) follow: once the loop is idle and the executor has
+     nothing pending, the blob is verified *)
+  (forall ops', core_ops ops' -> let s' := run ops' s1 in s_q s' = [] -> s_io s' = None ->
      s_verified s' = true /\ exists b, s_store s' = Some b /\ H b = h /\ N.of_nat (length b) = L)
-  (* and drain; io; drain reaches such a state, with the completion callback fired exactly once *)
+  (* and drain; io; drain reaches such a state; if nothing was being saved before, the completion callback is
+     called exactly once more than the calls already made or already queued *)
   /\ (let s4 := run [Drain; IoDone; Drain] s1 in
       s_q s4 = [] /\ s_verified s4 = true /\ s_writing s4 = false
       /\ (exists b, s_store s4 = Some b /\ H b = h /\ N.of_nat (length b) = L)
-      /\ s_completed s4 = if cb then 1%nat else 0%nat).
+      /\ (s_verified s = false -> s_writing s = false ->
+          s_completed s4 = (s_completed s + cnt is_cp (s_q s) + if cb then 1 else 0)%nat)).
 Proof.
   intros s Hn O P El Lp Ln Hh s1.
   destruct (winning_write ops i w d L Hn O P El Lp Ln Hh) as (_ & (w1 & N1 & F1 & _) & Q1).
   fold s in N1, Q1. fold s1 in N1, Q1.
-  assert (R1 : s1 = run (ops ++ [Write i d]) init) by (rewrite run_app; reflexivity).
+  destruct (reach_all ops) as (I0 & J0 & _). fold s in I0, J0.
+  assert (A1 : All s1) by (apply (All_step (Write i d)); apply reach_all).
+  destruct A1 as (I1 & I21 & K1 & _).
   assert (L1 : Live s1) by (right; right; exists i, w1, (w_buf w ++ d); auto).
-  assert (I21 : Inv2 s1) by (rewrite R1; apply Inv2_run, Inv2_init).
-  assert (I1 : Inv s1) by (rewrite R1; apply Inv_run, Inv_init).
-  assert (El1 : s_len s1 = Some L) by (apply step_len_kept; auto).
+  assert (El1 : s_len s1 = Some L) by (apply step_len_kept; auto; discriminate).
+  assert (SG : forall s', Inv s' -> s_len s' = Some L -> s_verified s' = true ->
+               exists b, s_store s' = Some b /\ H b = h /\ N.of_nat (length b) = L).
+  { intros s' I' E' V'. destruct (stored_good s' I' V') as (b & L' & X1 & X2 & X3 & X4).
+    exists b. repeat split; auto. congruence. }
   split.
-  - intros ops' s' Q Io.
-    assert (V : s_verified s' = true).
-    { apply Live_quiescent; auto. apply Inv2_run; auto. apply Live_run; auto. }
-    split; auto. apply stored_good; auto. apply Inv_run; auto. apply run_len_kept; auto.
+  - intros ops' Co s' Q Io.
+    assert (A' : All s'). { apply All_run. apply (All_step (Write i d)). apply reach_all. }
+    destruct A' as (I' & J' & _).
+    assert (V : s_verified s' = true). { apply Live_quiescent; auto. apply Live_run; auto. }
+    split; auto. apply SG; auto. apply run_len_kept; auto. apply core_no_delete; auto.
   - simpl. change (C01.drain kd cb ?x) with (drain kd cb x).
     set (s4 := drain kd cb (io_done (drain kd cb s1))).
     assert (V : s_verified s4 = true) by (apply wins_verified; auto).
-    assert (I4 : Inv s4) by (apply Inv_iter, Inv_io_done, Inv_iter; auto).
-    assert (I24 : Inv2 s4) by (apply Inv2_iter, Inv2_io_done, Inv2_iter; auto).
+    assert (A4 : All s4).
+    { apply (All_run [Drain; IoDone; Drain]). apply (All_step (Write i d)). apply reach_all. }
+    destruct A4 as (I4 & I24 & _).
     assert (Q4 : s_q s4 = []) by apply drain_quiescent.
     assert (El4 : s_len s4 = Some L).
     { unfold s4, drain. rewrite iter_len. unfold io_done. destruct (s_io _); simpl; rewrite iter_len; auto. }
+    assert (W4 : s_writing s4 = false) by (destruct I24 as (_ & X & _); auto).
     repeat split; auto.
-    + destruct I24 as (_ & X & _). auto.
-    + apply stored_good; auto.
-    + destruct I24 as (_ & _ & X & _). rewrite Q4, V in X. change (cnt is_cp []) with 0%nat in X.
-      change (cnt is_up []) with 0%nat in X. destruct cb; simpl in X; lia.
+    intros V0 W0.
+    assert (P4 : Psi s4 = Psi s).
+    { unfold s4, drain. rewrite Psi_iter by (apply Inv2_io_done, Inv2_iter; auto).
+      rewrite Psi_io_done. rewrite Psi_iter by auto. apply (Psi_step (Write i d)); simpl; auto. }
+    destruct I24 as (E1 & _). destruct J0 as (F1' & _).
+    unfold Psi, owed, io01 in *. rewrite Q4, V, W4 in *. rewrite V0, W0 in *.
+    change (cnt is_cp []) with 0%nat in P4. change (tok_q []) with 0%nat in P4. change (stage_q []) with 0%nat in E1.
+    simpl in *. destruct (s_io s4); [simpl in E1; lia|].
+    assert (T0 : tok_q (s_q s) = 0%nat).
+    { unfold tok_q, stage_q in *. destruct (s_io s); simpl in F1'; lia. }
+    rewrite T0 in P4. destruct (s_io s); [simpl in F1'; lia|]. destruct cb; simpl in *; lia.
 Qed.
 
 (* the winner also shuts every other writer down *)
@@ -1745,10 +2168,8 @@ Proof.
   destruct (winning_write ops i w d L Hn O P El Lp Ln Hh) as (_ & (w1 & N1 & F1 & _) & Q1).
   fold s in N1, Q1. fold s1 in N1, Q1.
   assert (R1 : s1 = run (ops ++ [Write i d]) init) by (rewrite run_app; reflexivity).
-  destruct (reach_all ops) as (I & _ & _). fold s in I.
-  assert (Rg : Reg s) by (apply Reg_run; auto; [apply Inv_init|apply Reg_init]).
-  assert (Rg1 : Reg s1) by (apply Reg_step; simpl; auto).
-  assert (C1 : Cl s1) by (rewrite R1; apply Cl_run, Cl_init).
+  assert (A1 : All s1) by (apply (All_step (Write i d)); apply reach_all).
+  destruct A1 as (_ & _ & _ & Rg1 & C1).
   assert (Pw1 : PW s1) by (right; exists i, w1, (w_buf w ++ d); auto).
   assert (Np2 : NP s2).
   { apply PW_quiescent; [|apply drain_quiescent]. apply PW_iter; auto. }
@@ -1757,7 +2178,7 @@ Proof.
   assert (Np4 : NP s4).
   { unfold s4. simpl. eapply NP_mono; [apply wmono_iter|apply iter_nws|].
     eapply NP_ws; [|exact Np2]. unfold io_done. destruct (s_io _); auto. }
-  assert (C4 : Cl s4) by (apply (Cl_run [Drain; IoDone; Drain]); auto).
+  assert (C4 : Cl s4) by (unfold s4; simpl; apply Cl_iter; apply (Cl_step IoDone); apply Cl_iter; auto).
   assert (Q4 : s_q s4 = []) by apply drain_quiescent.
   split; [|split].
   - intros j wj Hj. destruct (all_closed s2 C2 Np2 Q2 j wj Hj) as (A & B). split; auto. apply fut_done_true; auto.
@@ -1768,14 +2189,11 @@ Proof.
     rewrite iter_nws. unfold s1. simpl. unfold write. rewrite Hn. simpl. apply app_w_nws.
 Qed.
 
-(* the completion callback never fires twice *)
-Lemma completed_at_most_once ops : (s_completed (run ops init) <= 1)%nat.
+(* the completion callback never fires twice unless the object was reset (read out / deleted) in between *)
+Lemma completed_at_most_once ops : core_ops ops -> (s_completed (run ops init) <= 1)%nat.
 Proof.
-  destruct (reach_all ops) as (_ & (I1 & I2 & I3 & _) & _).
-  set (s := run ops init) in *. unfold stage_q in I1.
-  destruct cb; [|lia]. destruct (s_verified s) eqn:V.
-  - rewrite I2 in I1 by auto. simpl in *. lia.
-  - simpl in *. destruct (s_writing s); simpl in I1; lia.
+  intros Co. pose proof (Psi_run ops init Co Inv2_init) as P. unfold Psi in P at 2. simpl in P.
+  unfold Psi in P. unfold owed at 2 in P. simpl in P. destruct cb; simpl in P; lia.
 Qed.
 
 (* ------------------------------------------------------------------------------------------ *)
@@ -1868,6 +2286,9 @@ Proof.
   - apply seen0_iter.
   - apply seen0_iter.
   - apply seen0_ws. unfold io_done. destruct (s_io s); auto.
+  - apply seen0_ws. apply read_frame.
+  - unfold delete_blob. destruct (settled s); simpl; auto.
+    rewrite (seen0_ws (close_blob s)) by reflexivity. apply seen0_close_blob.
 Qed.
 
 Fixpoint written (i : nat) (ops : list op) (rs : list res) : bytes :=
@@ -1878,43 +2299,41 @@ Fixpoint written (i : nat) (ops : list op) (rs : list res) : bytes :=
 
 Definition results (ops : list op) (s : state) : list res := map snd (run_log H h kd cb ops s).
 
-Lemma seen_trace ops : forall s i, Inv s -> seen0 (run ops s) i = seen0 s i ++ written i ops (results ops s).
+Lemma seen_trace ops : forall s i, All s -> seen0 (run ops s) i = seen0 s i ++ written i ops (results ops s).
 Proof.
-  induction ops as [|o r IH]; intros s i I; simpl.
+  induction ops as [|o r IH]; intros s i A; simpl.
   - rewrite app_nil_r; auto.
-  - rewrite IH by (apply Inv_step; auto). rewrite step_seen0 by auto. rewrite <- app_assoc. reflexivity.
+  - rewrite IH by (apply All_step; auto). rewrite step_seen0 by (destruct A; auto). rewrite <- app_assoc. reflexivity.
 Qed.
 
 (* the future's state is a function of what was hashed *)
-Definition w_hist (len : option N) (w : writer) : Prop :=
+Definition w_hist (w : writer) : Prop :=
   (forall b, w_fut w = FOk b -> b = w_seen w /\ w_open w = false)
-  /\ (w_fut w = FErrLen -> w_open w = false /\ exists L, len = Some L /\ (L < N.of_nat (length (w_seen w)))%N)
-  /\ (w_fut w = FErrHash -> w_open w = false /\
-       exists L, len = Some L /\ N.of_nat (length (w_seen w)) = L /\ H (w_seen w) <> h).
+  /\ (w_fut w = FErrLen -> w_open w = false)
+  /\ (w_fut w = FErrHash -> w_open w = false /\ H (w_seen w) <> h).
 
-Lemma w_hist_close len w : w_hist len w -> w_hist len (fst (close_handle_w w)).
+Lemma w_hist_close w : w_hist w -> w_hist (fst (close_handle_w w)).
 Proof.
   intros (A & B & C). unfold close_handle_w. destruct (fut_done (w_fut w)) eqn:D; simpl.
-  - repeat split; simpl; auto; intros; try (apply A; auto); try (apply B; auto); try (apply C; auto).
-  - repeat split; simpl; auto; try (intros; discriminate).
+  - split; [|split]; simpl; auto. intros b E. destruct (A b E); auto. intros E. destruct (C E); auto.
+  - split; [|split]; simpl; intros; discriminate.
 Qed.
 
-Lemma w_hist_cancel len w : w_hist len w -> w_hist len (fst (cancel_w w)).
+Lemma w_hist_cancel w : w_hist w -> w_hist (fst (cancel_w w)).
 Proof.
   intros Hw. unfold cancel_w. destruct (fut_done (w_fut w)) eqn:D; simpl; auto.
-  repeat split; simpl; auto; try (intros; discriminate).
+  split; [|split]; simpl; intros; discriminate.
 Qed.
 
-Lemma w_hist_write len w d : w_ok len w -> w_hist len w -> w_hist len (fst (fst (wr_write len w d))).
+Lemma w_hist_write len w d : w_ok len w -> w_hist w -> w_hist (fst (fst (wr_write len w d))).
 Proof.
   intros Hok Hw. unfold C01.wr_write. destruct len as [L|]; simpl; auto.
   break_ifs; auto; norm_hyps.
   all: destruct Hok as (_ & B & _); destruct Hw as (A1 & A2 & A3); unfold w_hist; simpl.
-  all: repeat match goal with |- _ /\ _ => split end; auto; try (intros; discriminate); try congruence.
+  all: split; [|split]; auto; try (intros; discriminate); try congruence.
   all: try (intros b Eb; destruct (A1 b Eb) as (_ & X); congruence).
-  all: try (intros Eb; destruct (A2 Eb) as (X & _); congruence).
+  all: try (intros Eb; pose proof (A2 Eb); congruence).
   all: try (intros Eb; destruct (A3 Eb) as (X & _); congruence).
-  all: try (intros _; split; auto; exists L; repeat split; auto; fail).
   - intros b Eb. inversion Eb; subst. destruct (B Heqb0 Heqb4) as (S1 & _). rewrite S1. auto.
 Qed.
 
@@ -1958,64 +2377,53 @@ Proof.
 Qed.
 End Gen.
 
-Definition Hist (s : state) : Prop := Forall (w_hist (s_len s)) (s_ws s).
-
-Lemma w_hist_set_len w L : w_hist None w -> w_hist (Some L) w.
-Proof.
-  intros (A & B & C). split; [exact A|split].
-  - intros E. destruct (B E) as (_ & L0 & X & _). discriminate.
-  - intros E. destruct (C E) as (_ & L0 & X & _). discriminate.
-Qed.
+Definition Hist (s : state) : Prop := Forall w_hist (s_ws s).
 
 Lemma Hist_step o s : Inv s -> Hist s -> Hist (fst (step o s)).
 Proof.
-  intros I Hs. unfold Hist in *. destruct o.
-  - simpl. unfold set_length. destruct (s_len s) eqn:El; [rewrite El; auto|].
-    destruct ((0 <=? n)%Z && (n <=? Z.of_N MAX_BLOB_SIZE)%Z); [|rewrite El; auto]. simpl.
-    eapply Forall_impl; [|exact Hs]. intros w. apply w_hist_set_len.
-  - rewrite step_len_other by (intros; discriminate). simpl. unfold open_writer.
-    destruct (file_exists kd s); simpl; auto.
+  intros I Hs. unfold Hist in *. destruct o; simpl.
+  - unfold set_length. destruct (s_len s); auto. destruct ((0 <=? n)%Z && (n <=? Z.of_N MAX_BLOB_SIZE)%Z); auto.
+  - unfold open_writer. destruct (file_exists kd s); simpl; auto.
     match goal with |- context [if ?c then _ else _] => destruct c end; simpl; auto.
-    apply Forall_app; split; auto. constructor; auto. repeat split; simpl; intros; discriminate.
-  - rewrite step_len_other by (intros; discriminate). simpl. unfold write.
-    destruct (nth_error (s_ws s) i) eqn:Hi; simpl; auto.
+    apply Forall_app; split; auto. constructor; auto. split; [|split]; simpl; intros; discriminate.
+  - unfold write. destruct (nth_error (s_ws s) i) eqn:Hi; simpl; auto.
     unfold app_w. rewrite Hi. destruct (fst (wr_write (s_len s) w d)) as [w' fl] eqn:Ew. simpl.
     apply Forall_upd; auto. replace w' with (fst (fst (wr_write (s_len s) w d))) by (rewrite Ew; auto).
     apply w_hist_write. destruct I as (_ & I2 & _). eapply Forall_nth; eauto. eapply Forall_nth; eauto.
-  - rewrite step_len_other by (intros; discriminate). simpl. apply gen_app_w; auto. apply w_hist_close.
-  - rewrite step_len_other by (intros; discriminate). simpl. apply gen_close_blob; auto. apply w_hist_cancel.
-  - rewrite step_len_other by (intros; discriminate). simpl. apply gen_iter; auto. apply w_hist_close.
-  - rewrite step_len_other by (intros; discriminate). simpl. apply gen_iter; auto. apply w_hist_close.
-  - rewrite step_len_other by (intros; discriminate). simpl. unfold io_done. destruct (s_io s); auto.
+  - apply gen_app_w; auto. apply w_hist_close.
+  - apply gen_close_blob; auto. apply w_hist_cancel.
+  - apply gen_iter; auto. apply w_hist_close.
+  - apply gen_iter; auto. apply w_hist_close.
+  - unfold io_done. destruct (s_io s); auto.
+  - destruct (read_frame s) as (E1 & _). rewrite E1. auto.
+  - unfold delete_blob. destruct (settled s); simpl; auto. apply gen_close_blob; auto. apply w_hist_cancel.
 Qed.
 
-Lemma Hist_run ops : forall s, Inv s -> Hist s -> Hist (run ops s).
-Proof. induction ops; simpl; auto. intros. apply IHops. apply Inv_step; auto. apply Hist_step; auto. Qed.
+Lemma Hist_run ops : forall s, All s -> Hist s -> Hist (run ops s).
+Proof.
+  induction ops; simpl; auto. intros s A Hs. apply IHops. apply All_step; auto. apply Hist_step; auto. destruct A; auto.
+Qed.
 
-(* every writer, after any history: what it hashed is the concatenation of the chunks whose write() call got
-   past the guards, and the state of its future is determined by those bytes *)
+(* every writer, after any history (resets included): what it hashed is the concatenation of the chunks whose
+   write() call got past the guards, and the state of its future is determined by those bytes *)
 Lemma writer_history ops i w :
   nth_error (s_ws (run ops init)) i = Some w ->
   let t := written i ops (results ops init) in
-  let len := s_len (run ops init) in
   w_seen w = t
-  /\ (forall b, w_fut w = FOk b -> b = t /\ exists L, len = Some L /\ N.of_nat (length t) = L /\ H t = h)
-  /\ (w_fut w = FErrLen -> exists L, len = Some L /\ (L < N.of_nat (length t))%N)
-  /\ (w_fut w = FErrHash -> exists L, len = Some L /\ N.of_nat (length t) = L /\ H t <> h)
-  /\ (w_fut w = FPending -> forall L, len = Some L -> L <> 0%N -> (N.of_nat (length t) < L)%N).
+  /\ (forall b, w_fut w = FOk b -> b = t /\ H t = h /\ (0 < N.of_nat (length t) <= MAX_BLOB_SIZE)%N)
+  /\ (w_fut w = FErrHash -> H t <> h)
+  /\ (w_fut w = FPending -> forall L, s_len (run ops init) = Some L -> L <> 0%N -> (N.of_nat (length t) < L)%N).
 Proof.
-  intros Hn t len.
-  assert (I : Inv (run ops init)) by (apply Inv_run, Inv_init).
-  assert (Hs : Hist (run ops init)) by (apply Hist_run; [apply Inv_init|constructor]).
+  intros Hn t.
+  destruct (reach_all ops) as (I & _).
+  assert (Hs : Hist (run ops init)) by (apply Hist_run; [apply All_init|constructor]).
   assert (St : w_seen w = t).
-  { pose proof (seen_trace ops init i Inv_init) as X. unfold seen0 in X. rewrite Hn in X. simpl in X.
+  { pose proof (seen_trace ops init i All_init) as X. unfold seen0 in X. rewrite Hn in X. simpl in X.
     destruct i; simpl in X; exact X. }
   destruct I as (_ & I2 & _). destruct (Forall_nth _ _ _ _ I2 Hn) as (A & B & C & _).
-  destruct (Forall_nth _ _ _ _ Hs Hn) as (G1 & G2 & G3). fold len in A, B, G2, G3.
-  rewrite St in *. split; auto. split; [|split; [|split]].
-  - intros b Eb. destruct (G1 b Eb) as (X & _). split; auto. destruct (A b Eb) as (L & E1 & _ & E3 & E4).
-    exists L. subst b. auto.
-  - intros E. destruct (G2 E) as (_ & X). auto.
+  destruct (Forall_nth _ _ _ _ Hs Hn) as (G1 & G2 & G3).
+  rewrite St in *. split; auto. split; [|split].
+  - intros b Eb. destruct (G1 b Eb) as (X & _). split; auto. destruct (A b Eb) as (E3 & E4). subst b. auto.
   - intros E. destruct (G3 E) as (_ & X). auto.
   - intros E L EL Hne. destruct (w_open w) eqn:O; [|exfalso; apply C; auto].
     destruct (B eq_refl E) as (_ & X). apply X; auto.
@@ -2071,21 +2479,17 @@ Qed.
 
 Definition idle (s : state) : Prop := s_verified s = false /\ s_writing s = false.
 
-Lemma idle_head_plain s p r : Inv2 s -> idle s -> s_q s = p :: r -> plain p.
+Lemma idle_head_plain s p r : Inv2 s -> idle s -> s_q s = p :: r -> plain p \/ p = QCompleted.
 Proof.
-  intros (I1 & I2 & I3 & I4) (V & W) Eq. rewrite Eq, V, W in *.
-  rewrite stage_cons in I1. rewrite (cnt_cons is_cp), (cnt_cons is_up) in I3.
-  assert (U : cnt is_up [p] = 0%nat /\ cnt is_up r = 0%nat).
-  { unfold stage_q in I1. rewrite (cnt_cons is_up) in *. simpl in I1.
-    destruct p; cbv [cnt filter is_up length] in *; simpl in *; lia. }
-  destruct U as (U1 & U2). rewrite U1, U2 in I3.
-  destruct p; simpl; auto; cbv [stage_q cnt filter is_task is_ss is_wk is_up is_cp length] in I1, I3; simpl in *;
-    try lia; destruct cb; simpl in *; lia.
+  intros (I1 & _) (V & W) Eq. rewrite Eq, W in I1. simpl in I1.
+  assert (Z : stage_q (p :: r) = 0%nat) by lia.
+  destruct (stage_zero_in _ p Z) as (A & B & C & D); [left; auto|].
+  destruct p; simpl in *; auto; discriminate.
 Qed.
 
 Lemma idle_no_store s : Inv2 s -> idle s -> s_store s = None /\ s_io s = None.
 Proof.
-  intros (I1 & _ & _ & I4) (V & W). split.
+  intros (I1 & _ & I4) (V & W). split.
   - destruct (s_store s) eqn:E; auto. destruct I4 as [X|X]; congruence.
   - unfold io01 in I1. rewrite W in I1. destruct (s_io s); auto. simpl in I1. lia.
 Qed.
@@ -2196,6 +2600,7 @@ Proof.
       - intros x Hx. apply E1. rewrite Eq; right; auto.
       - intros _ _. exists pre', post, i, w. repeat split; auto. inversion L; auto. }
     inversion L as [|? ? Lh Lt]; subst.
+    destruct Pl as [Pl|Pl]; [|subst it; simpl; destruct E0 as (F1 & F2 & F3 & F4); unfold Ex; simpl; repeat split; auto].
     destruct it; simpl in Pl; try contradiction; simpl.
     + eapply Ex_neutral; [apply same_ctl_app_w|eapply wmono_app_w; apply (wtrans_close None)|auto].
     + eapply Ex_neutral; [apply same_ctl_set_map|apply wmono_ws; reflexivity|auto].
@@ -2210,9 +2615,9 @@ Proof. intros I2 E. unfold step1. destruct (s_q s) eqn:Eq; auto. apply Ex_run_it
 Lemma Ex_iter n s : Inv2 s -> Ex s -> Ex (iter kd cb n s).
 Proof. revert s; induction n; simpl; auto. intros. apply IHn. apply Inv2_step1; auto. apply Ex_step1; auto. Qed.
 
-Lemma Ex_step o s : Inv2 s -> Ex s -> Ex (fst (step o s)).
+Lemma Ex_step o s : core_op o -> Inv2 s -> Ex s -> Ex (fst (step o s)).
 Proof.
-  intros I2 E. destruct o; simpl.
+  intros Co I2 E. destruct o; simpl in *; try contradiction.
   - unfold set_length. destruct (s_len s); auto.
     destruct ((0 <=? n)%Z && (n <=? Z.of_N MAX_BLOB_SIZE)%Z); auto.
   - eapply Ex_neutral; [apply same_ctl_open|apply (wmono_step (Open k))|auto].
@@ -2228,22 +2633,16 @@ Proof.
     + intros V W. exfalso. destruct I2 as (I1 & _). unfold io01 in I1. rewrite Ei, W in I1. simpl in I1. lia.
 Qed.
 
-Lemma Ex_run ops s : Inv2 s -> Ex s -> Ex (run ops s).
+Lemma Ex_run ops s : core_ops ops -> Inv2 s -> Ex s -> Ex (run ops s).
 Proof.
-  revert s; induction ops; simpl; auto. intros. apply IHops. apply Inv2_step; auto. apply Ex_step; auto.
+  revert s; induction ops; simpl; auto. intros s Co I2 E. inversion Co; subst.
+  apply IHops; auto. apply Inv2_step; auto. apply Ex_step; auto.
 Qed.
 
 End Exact.
 
-Lemma cnt_zero_in p q it : cnt p q = 0%nat -> In it q -> p it = false.
-Proof.
-  unfold cnt. induction q; simpl; [tauto|]. intros Hc [->|Hin].
-  - destruct (p it); auto. simpl in Hc. discriminate.
-  - apply IHq; auto. destruct (p a); auto. simpl in Hc. discriminate.
-Qed.
-
 (* "exactly those bytes": if nothing is being saved and no other writer's result is waiting in the queue when a
-   live writer completes a correct copy t, then nothing but t is ever stored afterwards *)
+   live writer completes a correct copy t, then nothing but t is ever stored afterwards (until the object is reset) *)
 Lemma first_copy_exact ops i w d L :
   let s := run ops init in
   nth_error (s_ws s) i = Some w -> w_open w = true -> w_fut w = FPending -> s_len s = Some L -> (0 < L)%N ->
@@ -2251,9 +2650,9 @@ Lemma first_copy_exact ops i w d L :
   s_verified s = false -> s_writing s = false ->
   (forall j, In (QWfc j) (s_q s) -> loser s j) ->
   let s1 := fst (step (Write i d) s) in
-  forall ops' x, s_store (run ops' s1) = Some x -> x = w_buf w ++ d.
+  forall ops' x, core_ops ops' -> s_store (run ops' s1) = Some x -> x = w_buf w ++ d.
 Proof.
-  intros s Hn O P El Lp Ln Hh V W Lo s1 ops' x.
+  intros s Hn O P El Lp Ln Hh V W Lo s1 ops' x Co.
   destruct (winning_write ops i w d L Hn O P El Lp Ln Hh) as (_ & (w1 & N1 & F1 & _) & _).
   fold s in N1. fold s1 in N1.
   destruct (reach_all ops) as (_ & I2 & _). fold s in I2.
@@ -2282,7 +2681,7 @@ Proof.
       + unfold losers. apply Forall_app. split.
         * apply Forall_forall. intros it Hin. destruct it; auto. eapply loser_mono; [apply (wmono_step (Write i d))|auto].
         * repeat constructor. }
-  intros Es. pose proof (Ex_run (w_buf w ++ d) ops' s1 I21 E) as (_ & _ & E3 & _). auto.
+  intros Es. pose proof (Ex_run (w_buf w ++ d) ops' s1 Co I21 E) as (_ & _ & E3 & _). auto.
 Qed.
 
 End C01.
